@@ -185,26 +185,80 @@ _RECLAIM_RULE = ("each evaluation = one generated protocol-conforming client pro
                  "threads that start after another thread exited; publish / unlink+reclaim / acquire / acquire_if_equal / copy / move / swap / reset / "
                  "region_guard / deref) run under one seeded schedule, followed by a public-API-only flush by fresh threads; lifetime registry: guard table x "
                  "deleter events; distinct_nontrivial = distinct (program, call/return order, results) hashes with overlapping operations of different threads")
-PLANS["C01"] = plan_reclaim("C01", r"^proto_", 500, 8000, _RECLAIM_RULE,
+PLANS["C01"] = plan_reclaim("C01", r"^proto_", 2500, 20000, _RECLAIM_RULE,
                             {"destroyed_while_other_thread_guards": 1000, "destroyed_in_history": 10000, "guards_registered": 10000})
-PLANS["C02"] = plan_reclaim("C02", r"^proto_", 500, 8000,
+PLANS["C02"] = plan_reclaim("C02", r"^proto_", 2500, 20000,
                             _RECLAIM_RULE + "; census after the flush: every retired node destroyed exactly once by the deleter instance passed to reclaim()",
                             {"destroyed_by_other_after_retirer_exit": 100, "destroyed_in_history": 10000})
-PLANS["C15"] = plan_reclaim("C15", r"^proto_", 500, 8000,
+PLANS["C15"] = plan_reclaim("C15", r"^proto_", 1500, 20000,
                             _RECLAIM_RULE + "; guard algebra checked after every copy/move/swap/reset/self-assignment; snapshot claims of acquire / "
                             "acquire_if_equal checked against the recorded value history of the source cell (one-sided interval reasoning)",
                             {"guards_registered": 10000})
-PLANS["C17"] = plan_reclaim("C17", r"^gens_", 120, 2000,
+PLANS["C17"] = plan_reclaim("C17", r"^gens_", 400, 4000,
                             "each evaluation = 6-10 generations (rounds) of 3-6 short-lived threads (late threads start after another thread exited, so "
                             "records of exited threads are adopted inside the history) running the reclaim protocol, each round followed by a flush by fresh "
                             "threads; C01/C02 oracles stay armed; census of live heap blocks at quiescent points after G and 2G rounds must not grow with the "
                             "number of threads created", {"generation_rounds": 1000, "destroyed_by_other_after_retirer_exit": 100})
+
+def plan_c03():
+    """Weak-memory slice of every scenario (production orders and the TSan build variant) + race detector."""
+    fams_prod = [("queues", R8), ("reclaim", R8 + RPLUS)]
+    fams_tsan = [("queues", [1, 2, 3, 4, 5, 7]), ("reclaim", [1, 2, 3, 4, 5, 6, 7, 12])]
+
+    def targets(tier):
+        t = [("queues.norecl", "xrt-prod"), ("queues.norecl", "xrt-tsan")]
+        for fam, recls in fams_prod:
+            t += [("%s.R%d" % (fam, r), "xrt-prod") for r in recls]
+        for fam, recls in fams_tsan:
+            t += [("%s.R%d" % (fam, r), "xrt-tsan") for r in recls]
+        return t
+
+    def jobs(tier, seed, list_configs):
+        jobs = []
+        windows = [16] if tier == "quick" else [16, 64, 256]
+        for w in windows:
+            eq = 150 if tier == "quick" else 1500
+            er = 400 if tier == "quick" else 4000
+            jobs += queue_jobs(list_configs, R8, r".", "xrt-prod", "weak", eq, seed + w, norecl=True, window=w, per_job=3)
+            jobs += queue_jobs(list_configs, fams_tsan[0][1], r".", "xrt-tsan", "weak", eq, seed + w + 1, norecl=True, window=w, per_job=3)
+            jobs += generic_jobs(list_configs, "reclaim", R8 + RPLUS, r"^proto_", "xrt-prod", "weak", er, seed + w, window=w, per_job=2)
+            jobs += generic_jobs(list_configs, "reclaim", fams_tsan[1][1], r"^proto_", "xrt-tsan", "weak", er, seed + w + 1, window=w, per_job=2)
+        return jobs
+
+    def gates(tier, agg, counters, per_config, distinct):
+        msgs = []
+        if agg["stale_reads"] == 0:
+            msgs.append("no stale reads were injected")
+        if agg["stale_sites"] < 20:
+            msgs.append("only %d distinct code sites observed a stale read" % agg["stale_sites"])
+        if agg["race_checks"] == 0:
+            msgs.append("race detector saw no plain accesses")
+        if distinct < 100:
+            msgs.append("only %d distinct non-trivial histories" % distinct)
+        return msgs
+
+    rule = ("each evaluation = one generated program of one of the scenarios (queues, reclaim protocol, ...) executed in weak mode: loads may "
+            "return any message not excluded by happens-before/coherence and superseded at most W scheduler steps ago, weak CAS fails spuriously, "
+            "on the production memory orders (explicit fences) and on the TSan build variant; all scenario oracles run with happens-before precedence "
+            "and a vector-clock race detector checks every plain access and every free; distinct_nontrivial as in the scenario's own check")
+    return dict(targets=targets, jobs=jobs, gates=gates, rule=rule, assumptions=ASSUME_XRT + [
+        "weak executions are a subset of RC11: no load buffering, seq_cst accesses are modelled as fence-access-fence, release sequences follow the C++17 rule",
+        "races in which one side is an atomic operation (atomic access vs. plain initialisation / deallocation of the atomic object) are counted as diagnostics, not violations"],
+        level="exploration")
+
+
+PLANS["C03"] = plan_c03()
 
 # ---------------------------------------------------------------------------------------------------- manifest metadata
 NOT_YET = {}
 _LEVEL_NOTE = ("Trusted base: the xrt runtime (scheduler, vector clocks, heap shadow) and the sequential models in monitors/; gcc 12 -O1 "
                "TSan-instrumented build of the header-only library from /repo's working tree; executions explored = seeded sample, not all schedules.")
 META = {
+    "C03": dict(design_ref="DESIGN.md 5/C03 and 3.3", technique="runtime monitoring: happens-before (vector clock) race detector on plain accesses + fault injection of stale reads / spurious CAS failures under a view-based memory model, all scenario oracles re-run",
+                level_text="The runtime keeps per-location store histories and vector clocks and lets loads return stale-but-legal messages on the production memory orders and "
+                           "on the TSan variant; every other oracle (heap shadow, linearizability, ownership, lifetime) is re-evaluated on these executions with happens-before "
+                           "precedence. A weakened release/acquire shows up as a race the first time both accesses occur in any order.",
+                level_note=_LEVEL_NOTE + " Only standard-allowed behaviours are injected (more ordering than C++ requires wherever the model approximates)."),
     "C01": dict(design_ref="DESIGN.md 5/C01", technique="runtime monitoring: lifetime registry (guard table x destructor/deleter events) + never-reusing heap with freed shadow, controlled scheduler",
                 level_text="All 16 reclaimer configurations (LFRC, static/dynamic HP and HE, QSBR, stamp-it, 8 generic_epoch_based configurations) with thresholds and scan "
                            "frequencies chosen so that reclamation happens inside 10-40 operation histories; every destructor event is checked against the set of guards "
